@@ -213,9 +213,13 @@ def run_rollup_tool(case):
             inputs.append((tab, s.astype(float)))
         before = pipeline.read_results(src)
         dest = d / "dest"
-        c = core.Call(roll.main, ["--level", "psm", "--src_dir", str(src), "--dest_dir", str(dest), "--verbosity", "0"])
+        # base level of the rollup: PSM files, or previously written peptide / precursor files
+        base = ["psm", "psm", "peptide", "precursor"][case["index"] % 4]
+        if base == "precursor" and "Precursor" not in case["levels"]:
+            base = "peptide"
+        c = core.Call(roll.main, ["--level", base, "--src_dir", str(src), "--dest_dir", str(dest), "--verbosity", "0"])
         res.count("rollup_calls")
-        extra = dict(nsets=case["nsets"], levels=case["levels"], ties=case["ties"])
+        extra = dict(nsets=case["nsets"], levels=case["levels"], ties=case["ties"], base=base)
         if not c.ok:
             res.violate("crash", c.sig, msg=c.info["msg"], **extra)
             return res
@@ -226,7 +230,7 @@ def run_rollup_tool(case):
         # the rollup's input rows = union of the PSM-level result rows of all sets
         rows = []
         for name, df in before.items():
-            if name.endswith(".psms"):
+            if name.endswith(f".{base}s"):
                 rows.append(df.assign(_target=(".targets." in name)))
         pool = pd.concat(rows, ignore_index=True)
         pool = pool.rename(columns={"PSMId": "SpecId", "peptide": "Peptide", "proteinIds": "Proteins"})
@@ -234,7 +238,9 @@ def run_rollup_tool(case):
         pool["_score"] = pool["score"].astype(float)
         colmap = {"Peptide": "peptide", "ModifiedPeptide": "modified_peptide", "Precursor": "precursor", "PeptideGroup": "peptide_group"}
         judged = 0
-        for lc in ["Peptide"] + list(case["levels"]):
+        reach = {"psm": ["Peptide", "ModifiedPeptide", "Precursor", "PeptideGroup"], "peptide": ["Peptide"],
+                 "precursor": ["Precursor", "ModifiedPeptide", "PeptideGroup", "Peptide"]}[base]
+        for lc in [l for l in ["Peptide"] + list(case["levels"]) if l in reach]:
             lvl = colmap[lc]
             fl = {"targets": out.get(f"rollup.targets.{lvl}s"), "decoys": out.get(f"rollup.decoys.{lvl}s")}
             if fl["targets"] is None or fl["decoys"] is None:
